@@ -539,7 +539,7 @@ class Check(core.PropertyCheck):
         nf, nv = mc["NFields"], mc["NVals"]
         rng = random.Random(ctx.seed + 40)
         behs = g.edge_cover(rng, max_len=12, tail=3)
-        behs += g.random_walks(rng, 600 if ctx.quick else 12000, mc["MaxOps"] + 4)
+        behs += g.random_walks(rng, 600 if ctx.quick else 6000, mc["MaxOps"] + 4)
         k = 0
         for b in behs:
             if len(b) < 2 or b[1][0] != "Start":
@@ -552,7 +552,7 @@ class Check(core.PropertyCheck):
             yield core.Scenario({"ftype": ftype, "fields": fields, "vmap": vmap, "nvals": nv, "ops": self._ops(rng, b)},
                                 predicted=core.predicted_events(b), source="model")
         # histories beyond the model's bounds: every part of the type, three values, up to 5 flows, long histories
-        for _ in range(300 if ctx.quick else 6000):
+        for _ in range(300 if ctx.quick else 4000):
             ftype = rng.choice(TYPES)
             names = PART_NAMES[ftype]
             fields = list(names)
